@@ -164,12 +164,10 @@ def run_obligation(ctx, ob, cfg):
             else:
                 res.ok_paths += 1
                 items = ob.post(ip, p, r)
-            if len(res.violations) >= 2:
+            if len(res.violations) >= 8:
                 break
             path_violated = False
             for it in items:
-                if path_violated:
-                    break
                 if isinstance(it, Cover):
                     if covers_seen.get(it.label) == 'sat':
                         continue
@@ -197,6 +195,8 @@ def run_obligation(ctx, ob, cfg):
                     if cfg.get('cvc5') and ob.tier != 'skipcvc5':
                         _second_opinion(res, p, f, it.label, cfg)
                 elif st == z3.sat:
+                    if any(v['label'] == it.label for v in res.violations):
+                        continue      # one counterexample per violated claim
                     p.solver.push()
                     p.solver.add(z3.Not(f))
                     p.solver.check()
@@ -255,3 +255,41 @@ def _second_opinion(res, p, f, label, cfg):
         cv['unknown'] += 1
     finally:
         os.unlink(name)
+
+
+# ---------------------------------------------------------------------- Tier 3 helper
+
+def find_values(v, cls, depth=0):
+    """all instances of cls inside a value tree"""
+    out = []
+    if isinstance(v, cls):
+        out.append(v)
+    if depth > 6:
+        return out
+    if isinstance(v, Agg):
+        for f in v.fields:
+            out += find_values(f, cls, depth + 1)
+    elif isinstance(v, Enum):
+        for pl in v.payload.values():
+            for f in (pl.values() if isinstance(pl, dict) else pl):
+                out += find_values(f, cls, depth + 1)
+        for f in v.upvars:
+            out += find_values(f, cls, depth + 1)
+    return out
+
+
+def run_async(ip, p, coro, budget=2, on_suspend=None, max_polls=10):
+    """Drive a coroutine value to completion; `on_suspend(k, log_so_far)` is called at each
+    Pending return (k = 1, 2, ..).  Returns (result value, number of suspensions)."""
+    from models_async import poll_future
+    cell = Cell(coro, 'future')
+    p.pending_budget = budget
+    k = 0
+    for _ in range(max_polls):
+        r = run_to_end(poll_future(ip, Loc(cell)))
+        if r.discr == 0:
+            return r.payload[0][0], k
+        k += 1
+        if on_suspend is not None:
+            on_suspend(k, list(p.log))
+    raise OutOfBound('future still pending after %d polls' % max_polls)
